@@ -11,7 +11,7 @@
    keys never decrease along the list, which every store reachable by the API satisfies
    (c18_store_ops), so it does not restrict the stores the theorems speak about. *)
 From OlaBase Require Import Bytes.
-From C18 Require Import Model ProofsStr ProofsLoad SyncModel SyncProofs ProofsCrash ProofsRestore ProofsFail ProofsPort.
+From C18 Require Import Model ProofsStr ProofsLoad SyncModel SyncProofs ProofsCrash ProofsRestore ProofsFail ProofsPort ProofsReload.
 Local Open Scope N_scope.
 
 (* Save then load gives back exactly the same store: every entry, values containing '=' or '#',
@@ -328,3 +328,21 @@ Theorem c18_first_save_crash : forall step : fs -> sys -> option fs,
      ((length chunks + 3 <= k)%nat /\ f_conf s' = Some (save_bytes new) /\ restart s' = new)).
 Proof. exact first_save_crash. Qed.
 Print Assumptions c18_first_save_crash.
+
+(* ======================================================================== wave 5 *)
+
+(* Load() on a long-lived store object: with a settings file present the result does not depend on
+   what the store held (unsaved edits are discarded) nor on any earlier load - it is what the file
+   loads as.  And in histories: save, any unsaved edits (set / set-multiple / remove / clear), load,
+   further unsaved edits, load again - the store is the saved one each time, the file untouched. *)
+Theorem c18_load_replaces_store : forall mem1 mem2 d b,
+  f_conf d = Some b -> load_into mem1 d = load_bytes b /\ load_into mem1 d = load_into mem2 d.
+Proof. exact load_replaces. Qed.
+Print Assumptions c18_load_replaces_store.
+
+Theorem c18_reload_discards_unsaved_edits : forall st h1 h2,
+  inv st -> Forall op_ok h1 -> Forall is_edit h1 -> Forall op_ok h2 -> Forall is_edit h2 ->
+  exists st', run_ops st (OSave :: h1 ++ OLoad :: h2 ++ [OLoad]) = Done st' /\ inv st' /\
+              mem st' = mem st /\ f_conf (disk st') = Some (save_bytes (mem st)).
+Proof. exact save_edit_load. Qed.
+Print Assumptions c18_reload_discards_unsaved_edits.
